@@ -262,6 +262,30 @@ fn style_of<'a>(font: &'a MonoFont<'a>, tc: &str, bg: &str, ul: &str, st: &str) 
     s
 }
 
+/// The same style configured through the public builder, colours and decorations FIRST and the font LAST
+/// (`MonoTextStyleBuilder::font` rebuilds the style: it must keep every other setting; seeded change C14-r3-2
+/// copied the underline setting into the strikethrough there).
+fn style_via_builder<'a>(font: &'a MonoFont<'a>, tc: &str, bg: &str, ul: &str, st: &str) -> MonoTextStyle<'a, Rgb565> {
+    let mut b = MonoTextStyleBuilder::<Rgb565>::new();
+    if let Some(c) = opt_col(tc) {
+        b = b.text_color(c);
+    }
+    if let Some(c) = opt_col(bg) {
+        b = b.background_color(c);
+    }
+    b = match deco(ul) {
+        DecorationColor::None => b,
+        DecorationColor::TextColor => b.underline(),
+        DecorationColor::Custom(c) => b.underline_with_color(c),
+    };
+    b = match deco(st) {
+        DecorationColor::None => b,
+        DecorationColor::TextColor => b.strikethrough(),
+        DecorationColor::Custom(c) => b.strikethrough_with_color(c),
+    };
+    b.font(font).build()
+}
+
 fn draw_via<D: DrawTarget<Color = Rgb565, Error = TErr>>(
     style: &MonoTextStyle<Rgb565>, via: &str, bl: u32, pos: Point, text: &str, target: &mut D,
 ) -> Point {
@@ -418,6 +442,20 @@ impl Module for M {
     }
 
     fn generate(&self, pid: &str, tier: Tier, rng: &mut Rng, emit: &mut dyn FnMut(String)) {
+        if pid == "C15" {
+            // `TextRenderer::draw_whitespace` (what external layout code calls between words): the baseline shift
+            // applies to the background box AND to the decorations (seeded change C15-r3-3 left the decorations
+            // unshifted). Compared with the model `MonoFont.drawWhitespace`; the `C14:` oracle classes do not count
+            // in the C15 check, the correspondence does.
+            for (spec, hex, _) in custom_fonts(rng) {
+                for bl in 0..4 {
+                    emit(format!("font.draw {} w{} {} 9 31 1365 2047 {} 4 - {}", spec, 1 + rng.below(20), bl, rng.range(-9, 9), hex));
+                    emit(format!("font.draw {} w{} {} - - 2047 n {} 4 - {}", spec, 1 + rng.below(20), bl, rng.range(-9, 9), hex));
+                    emit(format!("font.draw {} w{} {} 7 - t 1365 {} 4 - {}", spec, 1 + rng.below(20), bl, rng.range(-9, 9), hex));
+                }
+            }
+            return;
+        }
         if pid != "C14" {
             return;
         }
@@ -705,11 +743,29 @@ impl Module for M {
                 let r = with_font(spec, atlas_tok, |fc, _bits| {
                     let font = fc.font;
                     let text: String = cps.iter().map(|c| char_of(*c)).collect();
-                    let style = style_of(font, tc, bg, ul, st);
+                    // every other op configures the style through the public builder (font last), the rest through
+                    // the public fields: the op line, not the way it is realised, says what the style is
+                    let style = if (cps.len() + bl as usize) % 2 == 0 { style_via_builder(font, tc, bg, ul, st) } else { style_of(font, tc, bg, ul, st) };
+                    ctx.count(if (cps.len() + bl as usize) % 2 == 0 { "draw:style-via-builder" } else { "draw:style-via-fields" });
                     let mut r1 = R1::<Rgb565>::unbounded();
                     let mut r2 = R2::<Rgb565>::unbounded();
                     let n1 = draw_via(&style, via, bl, pos, &text, &mut r1);
                     let n2 = draw_via(&style, via, bl, pos, &text, &mut r2);
+                    // a target whose bounding box does not start at the origin and cuts the text: the picture is the
+                    // unbounded picture restricted to the box (seeded change C14-r3-3 skipped glyphs starting at
+                    // x >= box width, i.e. assumed the box starts at x = 0)
+                    {
+                        let tb = embedded_graphics::primitives::Rectangle::new(Point::new(pos.x - 5, pos.y - 7), Size::new(40, 30));
+                        let mut r3 = R2::<Rgb565>::new(tb);
+                        let n3 = draw_via(&style, via, bl, pos, &text, &mut r3);
+                        let want: PMap = r1.rec.map.iter().filter(|((y, x), _)| tb.contains(Point::new(*x, *y))).map(|(k, v)| (*k, *v)).collect();
+                        if want.len() != r1.rec.map.len() {
+                            ctx.count("draw:cut-by-a-bounded-target");
+                        }
+                        ctx.expect(r3.rec.map == want && n3 == n1, "C14:bounded-target-picture-ne-cut-of-unbounded", || {
+                            format!("box {}: {} px, expected {} px; next {:?} vs {:?}", fmt_rect(&tb), r3.rec.map.len(), want.len(), n3, n1)
+                        });
+                    }
                     ctx.count(&format!("draw:via-{}", &via[..1]));
                     ctx.count(&format!("draw:text-{}:bg-{}", if tc == "-" { "none" } else { "set" }, if bg == "-" { "none" } else { "set" }));
                     let dk = |d: &str| if d == "n" || d == "t" { d.to_string() } else { "c".to_string() };
